@@ -41,6 +41,9 @@ CLAIMS = {
  "C17": ("exploration", "8.C17", "deterministic simulation: seeded operation histories on two connected real LLCs (live run loops) vs an address-table reference model",
          "Seeded histories of socket/bind/listen/serve/connect/accept/sendto/recvfrom/resolve/close (and repeated close of stale handles) on two live link controllers; after every operation success/errno/address, the SAP table and the name list of both controllers are compared with the reference model; datagrams must arrive only at the socket bound at their destination with payload and source intact; resolve and connect-by-name must reach the socket bound under the name.",
          "errno naming details as stated in the assumptions; connect by address to an address without any service access point is not judged (not part of the statement)"),
+ "C06": ("exploration", "8.C06", "deterministic simulation of two complete stacks (connect -> NFC-DEP -> LLCP -> SNEP/handover) over the real udp driver on a simulated network, octets compared at both application boundaries",
+         "Seeded exploration over roles, link MIUs, aggregation, socket MIU/RW of client and server, bit rate / length reduction, acceptable-length limits and 1-3 put/get/handover requests with sizes around multiples of the fragment size; thread schedules with pre-emption. The server application must see each message exactly once, octet identical; over-limit messages must be refused and never delivered in part; get/handover responses must arrive octet identical.",
+         "no air faults here (C04/C09 own them); link threads are pre-empted but not stalled (NFC-DEP response waiting time)"),
 }
 NA = {
  "C11": "pure encode/decode function of its argument: no schedule, clock, fault, peer or history enters the statement; deterministic simulation adds nothing over input generation (DESIGN.md section 9)",
